@@ -180,6 +180,18 @@ CHECKS = {
              "pydantic stand-ins and identity curve cleaning during symbolic runs. " + ENGINE_NOTE,
         technique="solver-based path-exhaustive symbolic execution of the real service (z3); exceptions on feasible paths are counterexamples",
     ),
+    "C17": dict(
+        category="model_checking",
+        text="clean_composite_curve(_ends) on polylines with concrete temperatures and z3-real enthalpies, and _rdp / "
+             "get_piecewise_data_points on polylines with concrete abscissae and z3-real ordinates, are executed symbolically; per path: kept "
+             "points are original points in order, ends (first/last non-flat points) kept, every removed point within 1e-6 K (clean) / within "
+             "the deviation tolerance in perpendicular distance (RDP, ||chord|| as uninterpreted sqrt with s*s = arg) of the simplified "
+             "polyline, and the one-sided tenth-of-tolerance clause.",
+        design_ref="5/C17",
+        note="3-6 points (clean), 3-5 points (RDP); the SLSQP refinement that the code runs only when more than 10 points survive is outside "
+             "reach (scipy). Two recorded findings: chained removal accumulates deviation; no one-sided refinement below 11 points. " + ENGINE_NOTE,
+        technique="solver-based path-exhaustive symbolic execution of the real code (z3; sqrt as uninterpreted function with defining axiom)",
+    ),
 }
 
 NOT_YET = {}
